@@ -39,6 +39,10 @@ def one(arg):
             cur = []
         elif re.match(r'^\[(C\d\d)\]', line) or 'Traceback' in line:
             fired.setdefault('ERROR', []).append(line[:200])
+    if 'ERROR' in fired:
+        txt = (rr.stdout + rr.stderr)
+        k = txt.find('Traceback')
+        fired['ERROR'] = [txt[k:k + 1500].splitlines()[-6:]]
     summ = ''
     try: summ = re.sub(r'\s+', ' ', json.load(open(d / 'meta.json')).get('summary', ''))[:140]
     except Exception: pass
